@@ -9,7 +9,11 @@ for id in $ids; do
   prop=$(python3 -c "import json;print(json.load(open('$m'))['property'])")
   dets=$(python3 -c "import json;print(' '.join(json.load(open('$m')).get('detected_by') or ['$prop']))")
   git -C $wt checkout -q -- . ; git -C $wt clean -fdq >/dev/null 2>&1
-  if ! git -C $wt apply /verif/seeded/$id/patch.diff 2>/dev/null; then echo "$id NOAPPLY"; continue; fi
+  if grep -q '"status": "retired"' $m; then echo "$id RETIRED"; continue; fi
+  if ! git -C $wt apply /verif/seeded/$id/patch.diff 2>/dev/null; then
+    # a repair in /repo touched the same lines: use the seed re-based onto the repaired code, when there is one
+    if [ -f seeded/$id/patch.rebased.diff ] && git -C $wt apply /verif/seeded/$id/patch.rebased.diff 2>/dev/null; then :; else echo "$id NOAPPLY"; continue; fi
+  fi
   res=MISSED
   for c in $dets; do
     VERIF_LEAN=$lean VERIF_REPO=$wt VERIF_SEED=${VERIF_SEED:-1} ./check $c > /tmp/sweep_$id.$c.log 2>&1
